@@ -406,6 +406,10 @@ func clExec(g *clGen, out *AreaOut) {
 	var gone []string // names that were in the bucket and are not any more
 	fail := func(clause, desc string) {
 		out.Oracle = append(out.Oracle, OracleFailure{"C12", clause, desc, map[string]any{"case": *c}})
+		if clause == "only-own-snapshots" {
+			// the same fact is C15's: names of other databases / non-snapshot files are never taken for snapshots of this database
+			out.Oracle = append(out.Oracle, OracleFailure{"C15", "other-db-or-kind-taken", desc, map[string]any{"case": *c}})
+		}
 	}
 	for _, j := range g.junk {
 		if !clHas(b.names, j) {
